@@ -457,6 +457,19 @@ def _taptree(c, prog):
             good = False
             det += " (not an expression of the consumed count: %s)" % e
     c.inst("R6.taptree-advance", "the reader advances by exactly the byte count the script decoder reports (any length-prefix size)", good, det, TD.f.where(), TD.f.path)
+    # public keys: the reader accepts both the 33- and the 65-byte form and records which one it saw (`compressed`), so
+    # the writer must emit according to that flag: the whole key (not just the curve point) has to reach the encoder
+    PK = "<bitcoin::PublicKey as pset::serialize::Serialize>::serialize"
+    PF = _Fn(prog, PK)
+    calls = [(s_[1], [_sh(a) for a in s_[2]]) for cx, s_ in PF.flat if s_[0] == "do"]
+    rets = [_sh(s_[1]) for cx, s_ in PF.flat if s_[0] == "ret"]
+    whole = any(cn in ("bitcoin::PublicKey::write_into", "bitcoin::PublicKey::to_bytes") and a[0] == "arg1" for cn, a in calls) or any(r in ("bitcoin::PublicKey::to_bytes(arg1)",) for r in rets)
+    partial = any(".inner" in r or ".compressed" in r for r in rets) or any(".inner" in x for cn, a in calls for x in a)
+    c.inst("R7.pubkey-codec", "PublicKey value codec writes the key in the form its `compressed` flag says (reader accepts both forms)", whole and not partial,
+           "calls %s; returns %s" % (calls, rets), PF.f.where(), PF.f.path)
+    PD = _Fn(prog, "<bitcoin::PublicKey as pset::serialize::Deserialize>::deserialize")
+    rd = [_sh(s_[1]) for cx, s_ in PD.flat if s_[0] == "ret"]
+    c.inst("R7.pubkey-codec", "reader: PublicKey::from_slice on the whole value", any(r.startswith("bitcoin::PublicKey::from_slice(arg1)") or "bitcoin::PublicKey::from_slice(arg1)" in r for r in rd), "returns %s" % rd, PD.f.where(), PD.f.path)
     KO = "<(std::vec::Vec<taproot::TapLeafHash>, (bitcoin::bip32::Fingerprint, bitcoin::bip32::DerivationPath)) as pset::serialize::Deserialize>::deserialize"
     if prog.has_fn(KO):
         KF = _Fn(prog, KO)
